@@ -20,7 +20,7 @@ func init() {
 		thorough [][]int64
 		what     string
 	}{
-		{"C07", [][]int64{{2, 0, 0, 0, 0}, {2, 1, 0, 0, 0}, {1, 0, 1, 1, 0}, {2, 0, 1, 0, 0}}, [][]int64{{3, 0, 0, 0, 0}, {3, 1, 0, 0, 0}, {2, 2, 1, 0, 0}, {2, 0, 1, 1, 0}, {2, 0, 1, 2, 0}}, "file back-end half of the store semantics"},
+		{"C07", [][]int64{{2, 0, 0, 0, 0}, {2, 1, 0, 0, 0}, {1, 0, 1, 1, 0}, {2, 0, 1, 0, 0}, {1, 0, 1, 2, 0}}, [][]int64{{3, 0, 0, 0, 0}, {3, 1, 0, 0, 0}, {2, 2, 1, 0, 0}, {2, 0, 1, 1, 0}, {2, 0, 1, 2, 0}}, "file back-end half of the store semantics"},
 		{"C16", [][]int64{{2, 0, 1, 0, 0}, {2, 1, 1, 0, 0}}, [][]int64{{2, 0, 1, 0, 0}, {2, 1, 1, 0, 0}, {3, 1, 0, 0, 0}, {2, 2, 1, 0, 0}}, "deleted events of the file store (remove, purge, cap eviction, retention)"},
 		{"C12", [][]int64{{1, 0, 1, 0, 0}, {2, 0, 0, 0, 0}}, [][]int64{{2, 0, 1, 0, 0}, {3, 0, 0, 0, 0}, {1, 0, 1, 2, 0}}, "retention scan and visitor protocol on the file store"},
 	} {
